@@ -431,6 +431,7 @@ func (x *vf12T) streamP(src string, start, preset int64, b *vf12Buf, want [][][]
 		}
 		line := fmt.Sprintf("%s %d %d %d %d %d %d %s", opName, x.idx, start, preset, bs, fk, fseed, pieces)
 		s.Count(fmt.Sprintf("bufio_%d", bs))
+		s.Count(fmt.Sprintf("cfg_readBufSize_%d", bs)) // the only option that reaches the decoder: the size of the bufio.Reader its callers build (store / memory channel readBufSize, 64 KiB in replica.go, 4096 in cmd/aof.go)
 		s.Count(fmt.Sprintf("frag_%d", fk))
 		// offset == bytes really consumed, for every command returned on ANY stream before the
 		// first inline command (canonical or not): the counter against the reader, no oracle needed
@@ -1064,6 +1065,9 @@ func (x *vf12T) replay(op string) bool {
 	if len(f) >= 1 && f[0] == "huge" {
 		return x.replayHuge(f)
 	}
+	if len(f) >= 1 && f[0] == "used-reader" {
+		return x.replayUsedReader(f)
+	}
 	if len(f) >= 7 && (f[0] == "dec" || f[0] == "decx") {
 		st, _ := strconv.ParseInt(f[2], 10, 64)
 		pre, _ := strconv.ParseInt(f[3], 10, 64)
@@ -1205,6 +1209,9 @@ func TestVerifC12(t *testing.T) {
 
 	// ---- values of identical size following each other, held until the end
 	x.sameSizeSection(nconf)
+
+	// ---- dimension audit: forced degenerate inputs, thresholds, every WriteArg type (vf_c12_dim_test.go)
+	x.dimSection(nconf)
 
 	// ---- single commands: every boundary size at every argument position 1..3
 	for _, n := range vf12Sizes {
